@@ -28,10 +28,13 @@ import ArmiVerif.Props.SrcTie.EqCycleNodeFromCumulativeNode
 import ArmiVerif.Props.SrcTie.EqCycleNodeFromCumulativeStep
 import ArmiVerif.Props.SrcTie.EqMcnpId
 import ArmiVerif.Props.SrcTie.EqAaazzzsId
+import ArmiVerif.Props.SrcTie.XsLemmas
 import ArmiVerif.Props.SrcTie.EqXsNumberFromLabel
 import ArmiVerif.Props.SrcTie.EqXsLabelFromNumber
 import ArmiVerif.Props.SrcTie.EqBlockBandwidth
 import ArmiVerif.Props.SrcTie.EqH5GroupName
+import ArmiVerif.Props.SrcTie.EqRotateIndex
+import ArmiVerif.Props.SrcTie.EqCartRingPos
 import ArmiVerif.Props.SrcTie.CorHexRingPos
 import ArmiVerif.Props.SrcTie.CorHexTotal
 import ArmiVerif.Props.SrcTie.CorHexNeighbours
@@ -44,3 +47,5 @@ import ArmiVerif.Props.SrcTie.CorNodesInverse
 import ArmiVerif.Props.SrcTie.CorXsLabels
 import ArmiVerif.Props.SrcTie.CorBlockBandwidth
 import ArmiVerif.Props.SrcTie.CorH5GroupName
+import ArmiVerif.Props.SrcTie.CorHexRotate
+import ArmiVerif.Props.SrcTie.CorCartRingPos
